@@ -657,6 +657,13 @@ void phpy_set_index_permutation_symmetry_compact_fc(
                 done[j_p * n_satom + i_trans] = 1;
                 for (k = 0; k < 3; k++) {
                     for (l = 0; l < 3; l++) {
+                        /* Block paired with itself (diagonal block, or j is */
+                        /* i moved by a self-inverse translation): visit */
+                        /* each (k,l)-(l,k) pair only once. The diagonal */
+                        /* block is already treated above. */
+                        if (j_p == i_p && i_trans == j && (i == j || l <= k)) {
+                            continue;
+                        }
                         m = i_p * n_satom * 9 + j * 9 + k * 3 + l;
                         n = j_p * n_satom * 9 + i_trans * 9 + l * 3 + k;
                         if (is_transpose) {
